@@ -20,9 +20,20 @@ VF_DECLARE_INPUT(struct vf_in, IN)
 #include "jenv.h"
 
 #define REF_J IN.j
-#define REF_FIRST IN.s_first
+/* discrete geometry is compile-time where a config gives it (rule 2) */
+#ifdef FIRST
+#define VF_FIRST ((unsigned) FIRST)
+#else
+#define VF_FIRST IN.s_first
+#endif
+#ifdef START
+#define VF_START ((unsigned) START)
+#else
+#define VF_START IN.s_start
+#endif
+#define REF_FIRST VF_FIRST
 #define REF_LAST ((unsigned) NJ)
-#define REF_START IN.s_start
+#define REF_START VF_START
 #if FEAT_CSUM
 #define REF_CSUM_HOOKS
 #define REF_CSUM(k) IN.csum[k]
@@ -44,16 +55,13 @@ int main(void)
 
 	VF_INPUT(IN);
 	/* ASSUME: journal geometry is valid: 1 <= s_first < s_maxlen, s_first <= s_start < s_maxlen (e2fsck_journal_load does not check this; invalid geometry is outside) */
-#ifdef FIRST
-	ASSUME(IN.s_first == FIRST);
-#endif
-	ASSUME(IN.s_first >= 1 && IN.s_first < NJ - 1);
-	ASSUME(IN.s_start >= IN.s_first && IN.s_start < NJ);
+	ASSUME(VF_FIRST >= 1 && VF_FIRST < NJ - 1);
+	ASSUME(VF_START >= VF_FIRST && VF_START < NJ);
 #if FEAT_CSUM
 	for (i = 0; i < NJ; i++)
 		vf_blk_csum[i] = IN.csum[i];
 #endif
-	vf_make_journal(IN.s_first, IN.s_sequence, IN.s_start);
+	vf_make_journal(VF_FIRST, IN.s_sequence, VF_START);
 
 	ref_walk(IN.s_sequence);
 	/* ASSUME: the log walk ends within REF_MAXWALK header blocks (a ring of same-sequence descriptor/revoke blocks without any commit block makes do_one_pass() spin forever: reported as an observation) */
